@@ -530,6 +530,16 @@ def exists_flag(fn, g=None):
                     cands.add(v)
                 elif sts and all(x_.strip(casts=True).intval() is not None or flag_expression(x_) is not None for x_ in sts):
                     cands.add(v)        # `flag = (a && !strcmp(..) && !strcmp(..))`, directly or through a one-line helper; `flag = 0;` before it
+    if len(cands) > 1:
+        # a named condition feeding the flag (`same_names = !strcmp(..) && !strcmp(..); if (open && same_names) flag = 1;`) is tested
+        # on the way too: the flag is the one whose test comes last before the create call
+        last = {}
+        for n in g.nodes:
+            if n.kind == "cond" and n.ast is not None and n.ast.path() in cands:
+                last[n.ast.path()] = max(last.get(n.ast.path(), -1), n.ast.begin)
+        best = sorted(last.items(), key=lambda kv: kv[1])
+        if best:
+            return best[-1][0]
     if len(cands) != 1:
         raise AnalysisError("%s: the flag that decides between the open file and a new one was not found exactly once (%s)" % (fn.name, sorted(cands)))
     return cands.pop()
@@ -562,12 +572,17 @@ def r4_new_file_on_name_change(repo=None):
                     cmp_nodes["sub_directory"] = n
                 if a == {OBJ + "->basename", d_base}:
                     cmp_nodes["basename"] = n
+    if expr_form is None and any(w not in cmp_nodes for w in ("sub_directory", "basename")):
+        # the comparisons are not conditions of their own (a named condition such as `same_names = !strcmp(..) && !strcmp(..)` that
+        # the flag's test uses): decide on the formula of "flag is 1", which looks through named conditions
+        expr_form = flag_is_one(fn, FE)
     if expr_form is not None:
         import itertools
         from .. import cbool
         f1, at = expr_form
         calls = {}
-        for c in [c_ for path_, nd_, rhs_, k_ in clib.stores(fn) if path_ == FE and rhs_ is not None for c_ in rhs_.calls(("strcmp", "strncmp"))]:
+        all_cmps = [c_ for c_ in fn.calls(("strcmp", "strncmp"))]
+        for c in all_cmps:
             a = {alias_path(fn, c.args[0]), alias_path(fn, c.args[1])}
             if a == {OBJ + "->sub_directory", d_subdir}:
                 calls["sub_directory"] = c
@@ -580,9 +595,10 @@ def r4_new_file_on_name_change(repo=None):
                             "the decision to continue in the open file ignores the derived %s: samples of a new period would be "
                             "appended to the old file" % what, line=at.line)
                 continue
-            an = cbool._text(calls[what].strip(casts=True), {})
+            an = cbool.atom_text(calls[what].strip(casts=True))
             if an not in names:
-                raise AnalysisError("%s: the comparison of %s is not an atom of the flag's expression %s" % (F, what, cbool.show(f1)[:100]))
+                # the comparison exists in the function but the flag's condition does not contain it
+                raise AnalysisError("%s: the comparison of %s is not an atom of the flag's condition %s: not decided" % (F, what, cbool.show(f1)[:100]))
             if len(names) > 14:
                 raise AnalysisError("%s: flag expression too large" % F)
             free = [n_ for n_ in names if n_ != an]
@@ -873,7 +889,7 @@ def r8_remembered_subdir_is_current(repo=None, rid="C04.R8"):
         if len(cmps) != 1:
             continue
         f = cbool.truth(ds[0])
-        an = cbool._text(cmps[0].strip(casts=True), {})
+        an = cbool.atom_text(cmps[0].strip(casts=True))
         names = sorted(cbool.atoms(f))
         if an not in names or len(names) > 12:
             continue
